@@ -223,11 +223,15 @@ def cases(tier):
         # fine-grained gates (every resolve/connect/recv) for short targets
         for a, b in itertools.product(['TERR', 'MARK', 'CLEAN'], repeat=2):
             out.append(((a, b), 2, 'text', False, 2, fine, None))
-        # a target that misbehaves in its probe phase next to a healthy one: both are reported as when audited alone
-        for f in [a for a in MT.FAILING if a.startswith('PROBE')]:
+        # a target that fails - at any stage: unreachable, before or after its banner, in its probe phase - next to a healthy one: both are
+        # reported as when audited alone
+        for f in sorted(MT.FAILING):
             for h in ('CLEAN', 'RSA1024'):
                 for order in ((f, h), (h, f)):
-                    out.append((order, 1, 'text', False, 0, conn, None))
+                    if f.startswith('PROBE'):
+                        out.append((order, 1, 'text', False, 0, conn, None))      # (the text error block of the other archetypes need not name its target)
+                    else:
+                        out.append((order, 1, 'json', False, 0, conn, None))
                     out.append((order, 2, 'json', False, 1, conn, None))
         # small TCP segments, so that a single packet takes several receives, and a switch between any two of them
         for a, b in (('SSH1', 'SSH1'), ('SSH1', 'TERR'), ('TERR', 'SSH1'), ('CLEAN', 'RSA1024')):
